@@ -458,11 +458,18 @@ class FmtStr:
         """Return a list of lines, split on newline characters,
         include line boundaries, if keepends is true."""
         lines = self.split("\n")
-        return (
-            [line + "\n" for line in lines]
-            if keepends
-            else (lines if lines[-1] else lines[:-1])
-        )
+        if keepends:
+            # re-slice so that each newline stays on its line with its own formatting
+            kept = []
+            start = 0
+            for line in lines[:-1]:
+                end = start + len(line) + 1
+                kept.append(self[start:end])
+                start = end
+            if lines[-1]:
+                kept.append(lines[-1])
+            return kept
+        return lines if lines[-1] else lines[:-1]
 
     # proxying to the string via __getattr__ is insufficient
     # because we shouldn't drop foreground or formatting info
